@@ -1414,7 +1414,11 @@ def run(tier, seed, model_ok, translator, search=False, prop="C04", weights=None
 
     # bounded-exhaustive scripts (operation *kinds* exhaustive, arguments drawn from the history's own stream)
     scripts = scripts_of(SCRIPT_ALPHABET, ex_depth)
+    n_scripts = 0
     for i, sc in enumerate(scripts):
+        if len(sc) == 3 and (i + seed) % 3 != 0:
+            continue                      # budget: all scripts of length <= 2, a seed-selected third of those of length 3
+        n_scripts += 1
         add(run_history(out, prop, seed, "ex%d" % ex_depth, i, len(sc), weights=None, plan=EX_PLAN, script=list(sc)))
     e_depth = 3
     escripts = [sc for sc in scripts_of(E_ALPHABET, e_depth) if len(sc) >= 2]
@@ -1423,7 +1427,7 @@ def run(tier, seed, model_ok, translator, search=False, prop="C04", weights=None
     for i, sc in enumerate(escripts):
         add(run_history(out, prop, seed, "exE%d" % e_depth, i, len(sc), weights=None,
                         plan=E_PLANS[(i + i // (len(escripts) // 2 if thorough else len(escripts) + 1)) % 2], script=list(sc)))
-    out.count("exhaustive_scripts", len(scripts) + len(escripts))
+    out.count("exhaustive_scripts", n_scripts + len(escripts))
     for i in range(n_rand):
         rng_d = make_rng(seed, f"{prop}:depth:{i}")
         depth = rng_d.choice([1, 2, 3, 4, 5, 6, 8, depth_max])
@@ -1435,8 +1439,9 @@ def run(tier, seed, model_ok, translator, search=False, prop="C04", weights=None
         for (what, case, exp), ans in zip(pend, common.run_model(ops)):
             compare(out, what, case, exp, ans)
     out.exhaustive = False
-    out.notes.append(f"bounded-exhaustive part: all {len(scripts)} operation-kind scripts of length <= {ex_depth} over "
-                     f"{len(SCRIPT_ALPHABET)} kinds from one fixed start table, and all {len(escripts)} scripts of length 2..{e_depth} "
+    out.notes.append(f"bounded-exhaustive part: {n_scripts} operation-kind scripts of length <= {ex_depth} over "
+                     f"{len(SCRIPT_ALPHABET)} kinds from one fixed start table (all of length <= 2; of length 3 the third selected "
+                     f"by the seed), and all {len(escripts)} scripts of length 2..{e_depth} "
                      f"over {len(E_ALPHABET)} kinds around emptiness transitions from two start tables (arguments random): "
                      "validates the model against the code, it is not the proof")
     return out
